@@ -57,7 +57,7 @@ func C09Worlds(c *Ctx, sz sizes) ([]*World, error) {
 	}
 	for i := 0; i < sz.templates*3; i++ {
 		r := c.Rng("c09-layout-world", i)
-		spec := DrawLayout(r, 1+r.IntN(4), LayoutOpts{UserPkgs: true, Guarded: true, CustomTags: true, GuardedUser: true, Symlinks: true})
+		spec := DrawLayout(r, 1+r.IntN(4), LayoutOpts{UserPkgs: true, Guarded: true, CustomTags: true, GuardedUser: true, Symlinks: true, Common: true})
 		if hasPathConflict(spec) {
 			continue
 		}
@@ -88,6 +88,19 @@ func C09Worlds(c *Ctx, sz sizes) ([]*World, error) {
 	}
 	for i := 0; i < nCov && i < len(cov); i++ {
 		ws = append(ws, cov[i].World(fmt.Sprintf("coverage#%d", i)))
+	}
+	// several converters that fail at the same stage, in different packages and output files:
+	// which failure is reported must not depend on map order or on the order of packages
+	for si, st := range stages {
+		s := &LSpec{UserPkgs: map[string]string{}, PkgNames: map[string]string{"svc/conv": "conv", "api/conv": "conv", "a": "a"}}
+		for ci, d := range []string{"svc/conv", "a", "api/conv"} {
+			kind := "interface"
+			if ci == 1 && st != "marker" && st != "render" {
+				kind = "variables"
+			}
+			s.Convs = append(s.Convs, LConv{Dir: d, File: "conv.go", Kind: kind, Name: fmt.Sprintf("D%c%d", 'a'+ci, si), Version: 1, Defect: st})
+		}
+		ws = append(ws, s.World("defects-"+st))
 	}
 	for i := 0; i < sz.combos && len(corpus) > 2; i++ {
 		r := c.Rng("c09-combo", i)
@@ -191,7 +204,7 @@ func CheckC09(c *Ctx) (*Outcome, error) {
 	hmk := func(i int) ([]*History, error) {
 		rng := c.Rng("c09-history", i)
 		h := DrawHistory(c, rng, HistoryOpts{MaxSteps: 4, Faults: true, Corrupt: true, Relocate: true, EnvVariants: true, RandomOrder: true, TornHeader: rng.IntN(2) == 0,
-			Layout: LayoutOpts{UserPkgs: true, Guarded: true, CustomTags: true, GuardedUser: true, Symlinks: true}})
+			Layout: LayoutOpts{UserPkgs: true, Guarded: true, CustomTags: true, GuardedUser: true, Symlinks: true, Common: true}})
 		if i < 4 {
 			c.Stats.Sample(map[string]any{"history_ops": DescribeOps(h)}, 10)
 		}
